@@ -24,7 +24,9 @@ import (
 //	G <current package id> | <declared package names> | <registered names> | <type>
 //
 // The answer is the serialised result of createASTTypeExpr and the import table.
-var verifBasics = []string{"int", "string", "bool", "float64", "error", "any", "byte", "uint8"}
+// "B <type>" lines answer with VarPool.getBaseName of the type (ctx stands for context.Context).
+var verifBasics = []string{"int", "string", "bool", "float64", "error", "any", "byte", "uint8",
+	"int8", "int64", "uint", "float32", "complex128", "uintptr", "rune", "uint16"}
 
 type verifTypes struct {
 	pkgs    []*types.Package
@@ -97,6 +99,8 @@ func (v *verifTypes) named(pkg, name int, args []types.Type) types.Type {
 func (v *verifTypes) parse() types.Type {
 	t := v.next()
 	switch {
+	case t == "ctx":
+		return types.NewNamed(types.NewTypeName(token.NoPos, types.NewPackage(contextPkgPath, contextPkgName), contextTypeName, nil), types.NewInterfaceType(nil, nil), nil)
 	case t == "ie":
 		return types.NewInterfaceType(nil, nil)
 	case strings.HasPrefix(t, "b"):
@@ -338,4 +342,20 @@ func verifTypeLine(line string) string {
 	}
 	sort.Strings(imps)
 	return "G " + verifExprString(expr) + " | " + strings.Join(imps, " ")
+}
+
+func verifBaseNameLine(line string) string {
+	v := &verifTypes{generic: map[string]*types.Named{}}
+	for i := 0; i < 8; i++ {
+		v.pkgs = append(v.pkgs, types.NewPackage(fmt.Sprintf("x/p%d", i), fmt.Sprintf("p%d", i)))
+	}
+	v.toks = strings.Fields(line)
+	t := v.parse()
+	if v.bad || v.pos != len(v.toks) {
+		return "BAD"
+	}
+	if _, ok := t.(verifVariadic); ok {
+		return "BAD"
+	}
+	return "B " + NewVarPool().getBaseName(t)
 }
